@@ -545,6 +545,16 @@ func (fc *FnCtx) checkFrame() {
 		}
 	}
 	sort.Strings(extra)
+	// `writes p` opens the element heap of p's type; a store in this body into a slice that is plainly somebody
+	// else's - a field of an object reached from a parameter, or a slice parameter the frame does not name - is
+	// outside the frame all the same
+	if len(con.Writes) > 0 {
+		named := map[string]bool{}
+		for _, w := range con.Writes {
+			named[w] = true
+		}
+		extra = append(extra, foreignStores(fc.fn, named)...)
+	}
 	save := fc.curReach
 	fc.curReach = "true"
 	cond := "true"
@@ -681,4 +691,80 @@ func (fc *FnCtx) pathCallRes(name string, h *HeapState) (Val, bool) {
 		comps = append(comps, fc.getHeapTerm(h, fmt.Sprintf("$cr.%s.%d", name, k), sorts[k]))
 	}
 	return mkVal(t, comps), true
+}
+
+// foreignStores: element stores (x[i] = v, copy(x, ...)) of fn whose target slice is rooted at a field of an object
+// reached from a parameter, or at a slice parameter not named in the frame.  Roots that are local (make, append, call
+// results) or unclear are not reported.
+func foreignStores(fn *ssa.Function, named map[string]bool) []string {
+	var root func(v ssa.Value, depth int) string
+	root = func(v ssa.Value, depth int) string {
+		if depth > 12 {
+			return ""
+		}
+		switch x := v.(type) {
+		case *ssa.Slice:
+			return root(x.X, depth+1)
+		case *ssa.ChangeType:
+			return root(x.X, depth+1)
+		case *ssa.Convert:
+			return root(x.X, depth+1)
+		case *ssa.Parameter:
+			if _, ok := x.Type().Underlying().(*types.Slice); ok && !named[x.Name()] {
+				return "parameter " + x.Name()
+			}
+			return ""
+		case *ssa.UnOp:
+			if x.Op != token.MUL {
+				return ""
+			}
+			// load of a field (chain) of an object reached from a parameter
+			a := x.X
+			path := ""
+			for i := 0; i < 6; i++ {
+				fa, ok := a.(*ssa.FieldAddr)
+				if !ok {
+					break
+				}
+				if st, ok := derefType(fa.X.Type()).Underlying().(*types.Struct); ok {
+					path = "." + st.Field(fa.Field).Name() + path
+				}
+				a = fa.X
+			}
+			if path == "" {
+				return ""
+			}
+			if pr, ok := a.(*ssa.Parameter); ok {
+				return pr.Name() + path
+			}
+			return ""
+		}
+		return ""
+	}
+	seen := map[string]bool{}
+	var out []string
+	add := func(r string) {
+		if r != "" && !seen[r] {
+			seen[r] = true
+			out = append(out, "the elements of "+r)
+		}
+	}
+	for _, b := range fn.Blocks {
+		for _, in := range b.Instrs {
+			switch x := in.(type) {
+			case *ssa.Store:
+				if ia, ok := x.Addr.(*ssa.IndexAddr); ok {
+					if _, isSl := ia.X.Type().Underlying().(*types.Slice); isSl {
+						add(root(ia.X, 0))
+					}
+				}
+			case *ssa.Call:
+				if bi, ok := x.Call.Value.(*ssa.Builtin); ok && bi.Name() == "copy" && len(x.Call.Args) == 2 {
+					add(root(x.Call.Args[0], 0))
+				}
+			}
+		}
+	}
+	sort.Strings(out)
+	return out
 }
